@@ -158,6 +158,8 @@ def renumber (last : Nat) (arr : List Row) : List Row :=
   arr.mapIdx (fun i r => if i < last then { r with r := i + 1 } else r)
 
 def checkSheet (rows : List Row) : Res (List Row) :=
+  -- row numbers are bounded first (`r.R > TotalRows` → ErrMaxRows; negative numbers cannot occur here)
+  if rows.any (fun r => decide (r.r > Facts.TotalRows)) then .err else
   match checkSheetMax 0 rows with
   | none => .unmodelled
   | some m =>
@@ -174,6 +176,10 @@ def placeCells : List Cell → List Cell → Option (List Cell)
   | tgt, [] => some tgt
   | tgt, c :: cs => if c.col - 1 < tgt.length then placeCells (tgt.set (c.col - 1) c) cs else none
 
+/-- `if colNum > lastCol { lastCol = colNum }` over all cells -/
+def maxCol (init : Nat) (cells : List Cell) : Nat :=
+  cells.foldl (fun m c => if c.col > m then c.col else m) init
+
 /-- rows.go `checkRow` for one row at slot `rowIdx` (every cell carries a reference) -/
 def checkRow1 (rowIdx : Nat) (r : Row) : Res Row :=
   match r.cells.getLast? with
@@ -181,8 +187,9 @@ def checkRow1 (rowIdx : Nat) (r : Row) : Res Row :=
   | some l =>
     if !(r.cells.all validRef) then .err
     else
-      let lastCol := l.col
-      if r.cells.length < lastCol then
+      if r.cells.length < l.col then
+        -- cells may be out of order: the row is sized by its greatest column
+        let lastCol := maxCol l.col r.cells
         let tgt := (List.range lastCol).map (fun j => blankCell (j + 1) (rowIdx + 1))
         match placeCells tgt r.cells with
         | some cs => .ok { r with cells := cs }
@@ -409,18 +416,26 @@ def readSheet (wb : WB) (i : Nat) : Res (WB × Sheet) :=
     | .panic => .panic
     | .unmodelled => .unmodelled
 
-/-- sheet.go `copySheet(from, to)`: deep copy of the loaded source into the cache
-slot of `to`; `checked` and the part of `to` are untouched -/
-def copySheet (wb : WB) (src dst : Nat) : Res WB :=
-  if src = dst ∨ wb.sheets.length ≤ dst then .err else
+/-- sheet.go `copySheet(from, to)`: the source is loaded, then the target is loaded
+too (it must be a worksheet; this marks an uncached target part as checked), then a
+deep copy of the source replaces the target in the cache; `checked` and the part of
+`to` are otherwise untouched. The second component is the state left behind when
+the call fails (loads that already happened stay). -/
+def copySheet (wb : WB) (src dst : Nat) : Res WB × WB :=
+  if src = dst ∨ wb.sheets.length ≤ dst then (.err, wb) else
   match readSheet wb src with
-  | .ok (wb', s) =>
-    match wb'.sheets[dst]? with
-    | none => .err
-    | some w => .ok ⟨wb'.sheets.set dst { w with cache := some s }⟩
-  | .err => .err
-  | .panic => .panic
-  | .unmodelled => .unmodelled
+  | .ok (wb1, s) =>
+    match readSheet wb1 dst with
+    | .ok (wb2, _) =>
+      match wb2.sheets[dst]? with
+      | none => (.err, wb2)
+      | some w => (.ok ⟨wb2.sheets.set dst { w with cache := some s }⟩, wb2)
+    | .err => (.err, wb1)
+    | .panic => (.panic, wb1)
+    | .unmodelled => (.unmodelled, wb1)
+  | .err => (.err, wb)
+  | .panic => (.panic, wb)
+  | .unmodelled => (.unmodelled, wb)
 
 /-! ### operations and histories -/
 
@@ -468,7 +483,7 @@ def step (wb : WB) : Op → WB × Out
   | .setHidden sh r h =>
     if r < 1 then (wb, .err) else liftOn (onSheet wb sh (fun s => setRowHidden s r h))
   | .newSheet => (newSheet wb, .done)
-  | .copy a b => liftRes wb (copySheet wb a b)
+  | .copy a b => liftOn (copySheet wb a b)
   | .save => liftRes wb (save wb)
   | .reopen => liftRes wb (reopen wb)
   | .get sh c r =>
